@@ -33,8 +33,8 @@ def _partition_model(w, ev, ref, ax):
     remove_empty = bool(ev.get('rme', 0))
     ignore_none = bool(ev.get('ign', 0))
     ids = ref.ids[ax]
-    if form != 0 and fam % CB.N_LABEL == 5:
-        fam = 0                         # list-valued labels only as function
+    if form != 0 and fam % CB.N_LABEL in (5, 6):
+        fam = 0            # list-valued / non-text labels only as function
     labels = [CB.label_rule(fam, salt, i, ref.md_or_none(ax, k))
               for k, i in enumerate(ids)]
     if form == 1:
